@@ -8,6 +8,18 @@
 //! history (events between start and stop, minus the stop key and the truncated tail; keys still
 //! down are released at the end in any order; a macro never plays itself), not from kanata.
 //!
+//! Play graphs (appended family `Graph`): the three macros' recordings contain taps of play keys.
+//! Every one of the 2^9 graphs "macro i contains play j" x every top-level play x both delay
+//! behaviours is realised exactly (self edges, X plays Y which contains play Y, mutual pairs,
+//! 2-cycles below the played macro, 3-cycles, acyclic nesting of depth 2, repeated taps), and further
+//! seeded variants disturb it (a macro never recorded, truncating stops, a second play key tapped
+//! physically while the judged replay runs). Each recording starts with a tap of the macro's own
+//! marker key (an output nothing else produces), so the monitor counts how often each macro's
+//! content is replayed. Judged, from the harness's bookkeeping only: (1) no macro is replayed more
+//! often than the play graph without its recursive edges (edges into a macro that is being
+//! replayed) allows, nor less often; (2) the replay ends within a bound derived from the recorded
+//! lengths (all families); (3) the usual relational comparison with typing the expansion again.
+//!
 //! Timing: with `dynamic-macro-replay-delay-behaviour recorded` kanata runs the recorded pauses
 //! inside one `tick_ms` call, so this check keeps its own stepper that reconstructs kanata's
 //! internal millisecond of every output from the `t:Nms` markers of the simulated output.
@@ -126,6 +138,12 @@ const STOP: &str = "0";
 const TRUNC: &[&str] = &["-", "="];
 const OUT_LETTERS: &[&str] = &["q", "w", "e", "r", "t", "y", "z", "x", "c", "v", "b", "n", "m"];
 const OUT_MODS: &[&str] = &["lsft", "lctl", "lalt", "rsft"];
+/// play-graph family only: every macro begins with a tap of its own marker key, whose output no
+/// other key produces, so the number of times a macro's content is replayed can be counted
+const MARKER: &[&str] = &["j", "k", "l"];
+const MARKER_OUT: &[&str] = &["f19", "f20", "f21"];
+/// play-graph family: 2^9 adjacency matrices (macro i contains a tap of play key j) x 3 top-level plays
+const GRAPHS: u64 = 512 * 3;
 
 #[derive(Clone, Copy, Debug, PartialEq, Eq)]
 enum Kind {
@@ -138,6 +156,30 @@ enum Kind {
     /// the stop key is tapped while a tap-hold decision is pending: kanata processes the stop
     /// only after later events have arrived (genuine deviation, see findings)
     LateStop,
+    /// systematic nested play graphs over the three macros (cases appended after the random families)
+    Graph,
+}
+
+/// number of cases of the random families; the play-graph family follows
+fn base_cases(ctx: &Ctx) -> u64 {
+    ctx.tier.sel(30_000, 600_000)
+}
+
+/// play-graph cases: every graph x top-level play x variant. Variants 0 and 1 realise the graph
+/// exactly (constant / recorded delays; every macro recorded, no truncating stop, nothing else
+/// pressed during the judged replay); the later ones (quick 2, thorough 22) alternate the delay
+/// behaviour and add seeded disturbances (a macro never recorded, truncating stops, a second play
+/// key tapped physically during the judged replay).
+fn graph_cases(ctx: &Ctx) -> u64 {
+    GRAPHS * ctx.tier.sel(4, 24)
+}
+
+fn kind_of_case(ctx: &Ctx, idx: u64) -> Kind {
+    if idx >= base_cases(ctx) {
+        Kind::Graph
+    } else {
+        kind_of(idx)
+    }
 }
 
 fn kind_of(idx: u64) -> Kind {
@@ -224,7 +266,7 @@ fn sensitive_action(rng: &mut Rng, shapes: &mut BTreeSet<&'static str>, t: u32) 
     }
 }
 
-fn make_cfg(rng: &mut Rng, kind: Kind) -> Cfg {
+fn make_cfg(rng: &mut Rng, kind: Kind, force_recorded: Option<bool>) -> Cfg {
     let time_sensitive = kind == Kind::Timed || kind == Kind::LateStop;
     let recorded_delays = if kind == Kind::LateStop {
         true
@@ -233,6 +275,7 @@ fn make_cfg(rng: &mut Rng, kind: Kind) -> Cfg {
     } else {
         rng.coin()
     };
+    let recorded_delays = force_recorded.unwrap_or(recorded_delays);
     let max_presses = if kind == Kind::Limit { rng.below(6) as u32 } else { *rng.pick(&[128u32, 128, 1000, 40]) };
     let trunc = [rng.range(1, 3) as u32, rng.range(2, 9) as u32];
     let witness = rng.coin() || kind == Kind::LateStop;
@@ -287,6 +330,12 @@ fn make_cfg(rng: &mut Rng, kind: Kind) -> Cfg {
     ctl(STOP, wrap("f15", "dynamic-macro-record-stop".to_string()));
     for (i, k) in TRUNC.iter().enumerate() {
         ctl(k, wrap("f16", format!("(dynamic-macro-record-stop-truncate {})", trunc[i])));
+    }
+    if kind == Kind::Graph {
+        for (i, k) in MARKER.iter().enumerate() {
+            ctl(k, MARKER_OUT[i].to_string());
+        }
+        shapes.insert("marker");
     }
     let text = format!(
         "(defcfg dynamic-macro-max-presses {max_presses} dynamic-macro-replay-delay-behaviour {})\n(defsrc {})\n(deflayer l0 {})\n(deflayer l1 {})\n",
@@ -482,6 +531,105 @@ struct Case {
     /// keys physically held while the macro is played (released afterwards)
     held_at_play: Vec<u16>,
     notes: Vec<String>,
+    /// play-graph family: the planned graph
+    graph: Option<GraphPlan>,
+}
+
+/// one case of the systematic play-graph family
+#[derive(Clone, Debug)]
+struct GraphPlan {
+    /// `adj[i][j]`: the recording of macro i contains a tap of play key j
+    adj: [[bool; 3]; 3],
+    top: usize,
+    /// variant 0/1: the graph is realised exactly, no seeded disturbances
+    clean: bool,
+    /// a second play key is tapped physically this many ticks after the judged play key (the
+    /// replay is then judged by counts, termination and the invariants only)
+    interrupt: Option<(u32, usize)>,
+}
+
+fn graph_plan(ctx: &Ctx, idx: u64) -> (GraphPlan, bool) {
+    let g = idx - base_cases(ctx);
+    let variant = g / GRAPHS;
+    let r = g % GRAPHS;
+    let top = (r % 3) as usize;
+    let bits = r / 3;
+    let mut adj = [[false; 3]; 3];
+    for i in 0..3 {
+        for j in 0..3 {
+            adj[i][j] = bits >> (3 * i + j) & 1 == 1;
+        }
+    }
+    (GraphPlan { adj, top, clean: variant < 2, interrupt: None }, variant % 2 == 1)
+}
+
+/// ticks a correct replay of macro `id` needs at most when every replayed event and every nested
+/// macro boundary is paced with 5 ms (used to size waits; the judged bound is `replay_bound`)
+fn ticks_needed(stored: &BTreeMap<usize, Stored>, id: usize) -> u64 {
+    let (typed, fs) = expand(stored, id);
+    let top_tail = stored.get(&id).map(|s| unreleased(&s.evs).len()).unwrap_or(0) as u64;
+    6 * (typed.len() as u64 + top_tail + fs.total_instances() as u64) + 30
+}
+
+/// record macro `id` for the play-graph family: marker tap, then typing interleaved with taps of
+/// the play keys in `targets`
+fn record_graph(b: &mut Builder, rng: &mut Rng, cfg: &Cfg, keys: &[u16], id: usize, targets: &[usize], clean: bool, notes: &mut Vec<String>) {
+    if rng.chance(1, 4) {
+        let k_ = 1 + rng.usize(2);
+        b.typing(rng, keys, k_);
+    }
+    b.tick(rng.range(0, 3) as u32 + 8);
+    b.press_record(id);
+    let rc = osc(REC[id]);
+    b.release(rc);
+    b.gap(rng);
+    let mk = osc(MARKER[id]);
+    b.press(mk);
+    b.gap(rng);
+    b.release(mk);
+    b.gap(rng);
+    for &x in targets {
+        let n_ = rng.usize(3);
+        b.typing(rng, keys, n_);
+        let pc = osc(PLAY[x]);
+        b.press(pc);
+        b.gap(rng);
+        if rng.chance(1, 4) {
+            b.typing(rng, keys, 1);
+        }
+        b.release(pc);
+        // a replay of what is stored right now starts live: let it finish, or go on typing into it
+        if rng.chance(2, 3) {
+            let w = ticks_needed(&b.stored, x).min(4000) as u32;
+            b.tick(w);
+        } else {
+            b.gap(rng);
+        }
+    }
+    let n_ = rng.usize(4);
+    b.typing(rng, keys, n_);
+    if rng.coin() {
+        b.release_typing(rng, keys);
+    }
+    b.tick(34);
+    match rng.usize(6) {
+        0 if !clean => {
+            let which = rng.usize(2);
+            b.press_stop(TRUNC[which], cfg.trunc[which]);
+            notes.push(format!("rec{id}: stop-truncate {}", cfg.trunc[which]));
+        }
+        1 => {
+            b.press_record(id);
+            notes.push(format!("rec{id}: record key pressed again"));
+        }
+        _ => {
+            b.press_stop(STOP, 0);
+            notes.push(format!("rec{id}: stop"));
+        }
+    }
+    b.tick(2);
+    b.release_all(rng);
+    b.settle();
 }
 
 fn typing_codes() -> Vec<u16> {
@@ -489,9 +637,16 @@ fn typing_codes() -> Vec<u16> {
 }
 
 fn make_case(ctx: &Ctx, idx: u64) -> Case {
-    let kind = kind_of(idx);
+    let kind = kind_of_case(ctx, idx);
     let mut rng = Rng::for_case(ctx.seed, "C19", "case", idx);
-    let cfg = make_cfg(&mut rng, kind);
+    let mut graph = None;
+    let mut force_recorded = None;
+    if kind == Kind::Graph {
+        let (g, recorded) = graph_plan(ctx, idx);
+        graph = Some(g);
+        force_recorded = Some(recorded);
+    }
+    let cfg = make_cfg(&mut rng, kind, force_recorded);
     let keys = typing_codes();
     let exact_timing = cfg.time_sensitive;
     // several tap-holds pressed close together are decided one after the other
@@ -730,13 +885,55 @@ fn make_case(ctx: &Ctx, idx: u64) -> Case {
             let n = n_sec(&mut rng);
             record(&mut b, &mut rng, play_id, n, &mut notes, &[], true);
         }
+        Kind::Graph => {
+            let g = graph.as_mut().expect("graph plan");
+            play_id = g.top;
+            let mut order = vec![0usize, 1, 2];
+            rng.shuffle(&mut order);
+            let mut skipped = vec![];
+            for &m in &order {
+                // now and then a macro other than the played one is never recorded: plays of it replay nothing
+                if !g.clean && m != g.top && rng.chance(1, 8) {
+                    skipped.push(m);
+                    continue;
+                }
+                let mut targets = vec![];
+                for j in 0..3 {
+                    if g.adj[m][j] {
+                        targets.push(j);
+                        if rng.chance(1, 4) {
+                            targets.push(j);
+                        }
+                    }
+                }
+                rng.shuffle(&mut targets);
+                record_graph(&mut b, &mut rng, &cfg, &keys, m, &targets, g.clean, &mut notes);
+            }
+            let adj = g.adj;
+            let edges: Vec<String> = (0..3).flat_map(|i| (0..3).filter(move |j| adj[i][*j]).map(move |j| format!("{i}>{j}"))).collect();
+            notes.push(format!("graph: edges [{}] top {} recorded in order {:?} never recorded {:?}", edges.join(" "), g.top, order, skipped));
+            if !g.clean && rng.coin() {
+                let z = rng.usize(3);
+                let (typed, fs) = expand(&b.stored, g.top);
+                let items = typed.len() as u64 + fs.total_instances() as u64;
+                let span = if cfg.recorded_delays { items } else { 5 * items };
+                let at = rng.range(1, span.max(2)) as u32;
+                g.interrupt = Some((at, z));
+                notes.push(format!("graph: play key {z} tapped physically {at} ticks after the judged play key"));
+            }
+        }
     }
     // how long a replay can take
     let mut total: u64 = 0;
     for s in b.stored.values() {
         total += s.evs.iter().map(|e| e.gap as u64 + 6).sum::<u64>() + 12;
     }
-    let wait = (total * 4 + 200).min(20_000) as u32 + settle;
+    let mut wait = (total * 4 + 200).min(20_000) as u32 + settle;
+    if kind == Kind::Graph {
+        // nested plays repeat stored content: size the wait from the expansions instead
+        let need: u64 = (0..3).map(|m| ticks_needed(&b.stored, m)).sum();
+        wait = (need + 200).min(20_000) as u32 + settle;
+    }
     // replays started while recording must be over before the judged play
     b.tick(wait);
     if kind == Kind::HeldContext {
@@ -755,7 +952,7 @@ fn make_case(ctx: &Ctx, idx: u64) -> Case {
         held_at_play = ks;
         notes.push("keys held while playing".into());
     }
-    Case { kind, cfg, prefix: b.h, play_id, stored: b.stored, wait, held_at_play, notes }
+    Case { kind, cfg, prefix: b.h, play_id, stored: b.stored, wait, held_at_play, notes, graph }
 }
 
 fn play_code(id: usize) -> u16 {
@@ -766,11 +963,55 @@ fn is_play_key(code: u16) -> Option<usize> {
     PLAY.iter().position(|p| osc(p) == code)
 }
 
+/// why the model refuses a play key found inside a replayed macro
+#[derive(Clone, Copy, Debug, PartialEq, Eq, PartialOrd, Ord)]
+enum Refusal {
+    /// a nested macro (not the one whose play key was pressed) contains its own play key
+    SelfNested,
+    /// a macro nested at depth >= 2 plays a nested ancestor other than itself (cycle that does not
+    /// pass through the top-level macro)
+    BackToNestedAncestor,
+    /// the top-level macro contains its own play key
+    SelfAtTop,
+    /// a nested macro plays the top-level macro
+    BackToTop,
+}
+
+impl Refusal {
+    fn name(self) -> &'static str {
+        match self {
+            Refusal::SelfNested => "self-nested",
+            Refusal::BackToNestedAncestor => "back-to-nested-ancestor",
+            Refusal::SelfAtTop => "self-at-top",
+            Refusal::BackToTop => "back-to-top",
+        }
+    }
+}
+
+/// what the model's expansion of one play looked like
+#[derive(Clone, Debug, Default)]
+struct FlatStats {
+    max_depth: usize,
+    /// how often each macro's content is replayed (the top-level one counts once)
+    instances: BTreeMap<usize, u32>,
+    /// refused play presses: (class, refused macro)
+    refusals: Vec<(Refusal, usize)>,
+    /// play presses of macros that were never stored (nothing to replay)
+    plays_of_nothing: u32,
+}
+
+impl FlatStats {
+    fn total_instances(&self) -> u32 {
+        self.instances.values().sum()
+    }
+}
+
 /// what typing the recorded macro again means: nested plays expanded in place (a macro never plays
 /// itself), play keys replaced by the effect-free keys of the same shape
-fn flatten(stored: &BTreeMap<usize, Stored>, id: usize, cut: Option<usize>, active: &mut Vec<usize>, out: &mut Vec<Typed>, order_known: &mut bool, depth: usize, max_depth: &mut usize) {
+fn flatten(stored: &BTreeMap<usize, Stored>, id: usize, cut: Option<usize>, active: &mut Vec<usize>, out: &mut Vec<Typed>, order_known: &mut bool, depth: usize, fs: &mut FlatStats) {
     let Some(st) = stored.get(&id) else { return };
-    *max_depth = (*max_depth).max(depth);
+    fs.max_depth = fs.max_depth.max(depth);
+    *fs.instances.entry(id).or_insert(0) += 1;
     let evs: &[RecEv] = match cut {
         Some(n) => &st.evs[..n.min(st.evs.len())],
         None => &st.evs,
@@ -779,10 +1020,27 @@ fn flatten(stored: &BTreeMap<usize, Stored>, id: usize, cut: Option<usize>, acti
         match is_play_key(e.code) {
             Some(x) => {
                 out.push(Typed { press: e.press, code: osc(DUMMY[x]), gap: e.gap });
-                if e.press && !active.contains(&x) && stored.contains_key(&x) {
-                    active.push(x);
-                    flatten(stored, x, None, active, out, order_known, depth + 1, max_depth);
-                    active.pop();
+                if e.press {
+                    if !stored.contains_key(&x) {
+                        fs.plays_of_nothing += 1;
+                    } else if active.contains(&x) {
+                        let class = if x == id {
+                            if depth == 0 {
+                                Refusal::SelfAtTop
+                            } else {
+                                Refusal::SelfNested
+                            }
+                        } else if active.first() == Some(&x) {
+                            Refusal::BackToTop
+                        } else {
+                            Refusal::BackToNestedAncestor
+                        };
+                        fs.refusals.push((class, x));
+                    } else {
+                        active.push(x);
+                        flatten(stored, x, None, active, out, order_known, depth + 1, fs);
+                        active.pop();
+                    }
                 }
             }
             None => out.push(Typed { press: e.press, code: e.code, gap: e.gap }),
@@ -801,6 +1059,38 @@ fn flatten(stored: &BTreeMap<usize, Stored>, id: usize, cut: Option<usize>, acti
             out.push(Typed { press: false, code: c, gap: 1 });
         }
     }
+}
+
+/// the model's expansion of pressing play key `id` while nothing else is replayed
+fn expand(stored: &BTreeMap<usize, Stored>, id: usize) -> (Vec<Typed>, FlatStats) {
+    let mut typed = vec![];
+    let mut ok = true;
+    let mut fs = FlatStats::default();
+    flatten(stored, id, None, &mut vec![id], &mut typed, &mut ok, 0, &mut fs);
+    (typed, fs)
+}
+
+/// Upper bound (in 1 ms ticks) for a replay, derived from the recorded lengths only: every replayed
+/// event and every nested macro boundary may take the constant pacing (5 ms, one spare), recorded
+/// pauses may be waited for in full, plus a fixed slack. An unbounded replay exceeds any such bound.
+fn replay_bound(stored: &BTreeMap<usize, Stored>, id: usize) -> u64 {
+    let (typed, fs) = expand(stored, id);
+    let top_tail = stored.get(&id).map(|s| unreleased(&s.evs).len()).unwrap_or(0) as u64;
+    let gaps: u64 = typed.iter().map(|t| t.gap as u64).sum();
+    6 * (typed.len() as u64 + top_tail + fs.total_instances() as u64) + gaps + 100
+}
+
+/// how often each marker key is pressed in a typed expansion
+fn marker_presses(typed: &[Typed]) -> [u32; 3] {
+    let mut n = [0u32; 3];
+    for t in typed {
+        if t.press {
+            if let Some(i) = MARKER.iter().position(|m| osc(m) == t.code) {
+                n[i] += 1;
+            }
+        }
+    }
+    n
 }
 
 struct Verdict {
@@ -827,8 +1117,8 @@ fn compare(case: &Case, cut: Option<usize>, replay: &[IOut], replay_anchor_len: 
     let mut typed = vec![];
     let mut order_known = true;
     let mut active = vec![case.play_id];
-    let mut md = 0;
-    flatten(&case.stored, case.play_id, cut, &mut active, &mut typed, &mut order_known, 0, &mut md);
+    let mut fs = FlatStats::default();
+    flatten(&case.stored, case.play_id, cut, &mut active, &mut typed, &mut order_known, 0, &mut fs);
     let st = case.stored.get(&case.play_id);
     let tail: Vec<u16> = match (st, cut) {
         (Some(s), Some(n)) => unreleased(&s.evs[..n.min(s.evs.len())]),
@@ -930,7 +1220,7 @@ impl Check for C19Check {
         "C19"
     }
     fn n_cases(&self, ctx: &Ctx) -> u64 {
-        ctx.tier.sel(30_000, 600_000)
+        base_cases(ctx) + graph_cases(ctx)
     }
     fn describe(&self, ctx: &Ctx, idx: u64) -> Value {
         let c = make_case(ctx, idx);
@@ -970,13 +1260,39 @@ impl Check for C19Check {
         let stored_in_kanata = sim.k.dynamic_macros.get(&(case.play_id as u16)).map(|v| v.len());
         let anchor = sim.outs.len();
         let it0 = sim.it;
+        // ---- the model's expansion of the judged play (harness bookkeeping only)
+        let (model_typed, model_fs) = expand(&case.stored, case.play_id);
+        let mut bound = replay_bound(&case.stored, case.play_id);
+        let mut allowed_markers = marker_presses(&model_typed);
+        let interrupt = case.graph.as_ref().and_then(|g| g.interrupt);
+        if let Some((_, z)) = interrupt {
+            // a play key tapped physically while the replay runs is nested into it wherever the replay
+            // happens to be (or starts a replay of its own afterwards); it is refused if that macro is
+            // being replayed. Either way no more than one further expansion of it may be replayed.
+            let (zt, _) = expand(&case.stored, z);
+            let zm = marker_presses(&zt);
+            for i in 0..3 {
+                allowed_markers[i] += zm[i];
+            }
+            bound += replay_bound(&case.stored, z);
+        }
         // ---- play
         let pc = play_code(case.play_id);
         sim.event(pc, KeyValue::Press);
         let mut ended_after = None;
+        let mut interrupted_running = false;
         for t in 0..case.wait {
+            if let Some((at, z)) = interrupt {
+                if t == at {
+                    interrupted_running = sim.k.dynamic_macro_replay_state.is_some();
+                    sim.event(play_code(z), KeyValue::Press);
+                    ended_after = None;
+                } else if t == at + 3 {
+                    sim.event(play_code(z), KeyValue::Release);
+                }
+            }
             sim.tick(1);
-            if ended_after.is_none() && sim.k.dynamic_macro_replay_state.is_none() {
+            if ended_after.is_none() && sim.k.dynamic_macro_replay_state.is_none() && interrupt.map(|(at, _)| t > at).unwrap_or(true) {
                 ended_after = Some(t + 1);
             }
         }
@@ -993,9 +1309,68 @@ impl Check for C19Check {
         sim.tick(case.cfg.max_timeout as u64 + 60);
         let replay: Vec<IOut> = sim.outs[anchor..].to_vec();
         out.count("internal_ms_run_inside_replays", sim.it.saturating_sub(it0));
+        // ---- play graph: no macro is replayed more often than the graph without its recursive edges allows
+        let mut observed_markers = [0u32; 3];
+        if case.kind == Kind::Graph {
+            for (i, m) in MARKER_OUT.iter().enumerate() {
+                let name = code_name(osc(m));
+                observed_markers[i] = replay.iter().filter(|o| o.down && !o.other && o.name == name).count() as u32;
+            }
+            let over: Vec<usize> = (0..3).filter(|i| observed_markers[*i] > allowed_markers[*i]).collect();
+            if !over.is_empty() {
+                // structural class: the refused (recursive) edge of the model that leads into an over-replayed macro
+                let mut classes: Vec<Refusal> = model_fs.refusals.iter().filter(|(_, m)| over.contains(m)).map(|(c, _)| *c).collect();
+                classes.sort();
+                let sig = match (classes.first(), interrupt) {
+                    (_, Some((_, z))) => {
+                        // the physically pressed play key is nested wherever the replay happens to be:
+                        // class by whether either expansion has a recursive edge at all
+                        let (_, zfs) = expand(&case.stored, z);
+                        if model_fs.refusals.is_empty() && zfs.refusals.is_empty() {
+                            "C19:macro-replayed-too-often:no-recursive-edge".to_string()
+                        } else {
+                            "C19:recursive-replay:play-key-pressed-during-replay".to_string()
+                        }
+                    }
+                    (Some(c), None) => format!("C19:recursive-replay:{}", c.name()),
+                    (None, None) => "C19:macro-replayed-too-often:no-recursive-edge".to_string(),
+                };
+                let m = over[0];
+                out.violate(
+                    sig,
+                    format!(
+                        "macro {m} is replayed {} times where its play graph without the recursive edges allows {} (marker presses per macro observed {:?}, allowed {:?}; replay {})",
+                        observed_markers[m],
+                        allowed_markers[m],
+                        observed_markers,
+                        allowed_markers,
+                        if still_replaying { "still running at the end of the wait".to_string() } else { format!("ended after {:?} ticks", ended_after) }
+                    ),
+                    witness(&case, None, json!({"outputs_so_far": replay.len(), "first_outputs": replay.iter().take(60).map(|o| o.short()).collect::<Vec<_>>(), "model_expansion": render_typed(&model_typed), "refused_in_model": model_fs.refusals.iter().map(|(c, m)| format!("{}:{m}", c.name())).collect::<Vec<_>>(), "bound_ticks": bound, "interrupt": interrupt})),
+                );
+                return out;
+            }
+        }
         if still_replaying {
-            out.violate("C19:replay-never-ends", format!("the replay is still running {} ticks after the play key", case.wait), witness(&case, None, json!({"outputs_so_far": replay.len()})));
+            out.violate("C19:replay-never-ends", format!("the replay is still running {} ticks after the play key (bound derived from the recorded lengths: {bound})", case.wait), witness(&case, None, json!({"outputs_so_far": replay.len(), "bound_ticks": bound})));
             return out;
+        }
+        if let Some(e) = ended_after {
+            if e as u64 > bound {
+                out.violate("C19:replay-exceeds-bound", format!("the replay took {e} ticks; the recorded lengths bound it by {bound}"), witness(&case, None, json!({"outputs_so_far": replay.len(), "bound_ticks": bound, "interrupt": interrupt})));
+                return out;
+            }
+            out.inc("replays_ended_within_bound");
+        }
+        if case.kind == Kind::Graph && interrupt.is_none() {
+            if let Some(m) = (0..3).find(|i| observed_markers[*i] < allowed_markers[*i]) {
+                out.violate(
+                    "C19:nested-play-missing",
+                    format!("macro {m} is replayed {} times where the play graph demands {} (observed {:?}, expected {:?})", observed_markers[m], allowed_markers[m], observed_markers, allowed_markers),
+                    witness(&case, None, json!({"first_outputs": replay.iter().take(60).map(|o| o.short()).collect::<Vec<_>>(), "model_expansion": render_typed(&model_typed)})),
+                );
+                return out;
+            }
         }
         // ---- relational comparison with the twin(s)
         let exact = case.cfg.time_sensitive && case.cfg.recorded_delays;
@@ -1006,7 +1381,7 @@ impl Check for C19Check {
         if ambiguous_tail {
             out.inc("time_sensitive_with_several_keys_down_at_stop");
         }
-        let judge_relational = (!case.cfg.time_sensitive || case.cfg.recorded_delays) && !ambiguous_tail;
+        let judge_relational = (!case.cfg.time_sensitive || case.cfg.recorded_delays) && !ambiguous_tail && interrupt.is_none();
         let mut verdict: Option<Verdict> = None;
         let mut limit_cut = None;
         if judge_relational {
@@ -1107,33 +1482,92 @@ impl Check for C19Check {
             }
         }
         if case.kind == Kind::Nested {
-            let mut typed = vec![];
-            let mut ok = true;
-            let mut md = 0;
-            flatten(&case.stored, case.play_id, None, &mut vec![case.play_id], &mut typed, &mut ok, 0, &mut md);
-            out.max("nested_depth", md as u64);
+            let (_, fs) = expand(&case.stored, case.play_id);
+            out.max("nested_depth", fs.max_depth as u64);
             let self_refused = case.stored.get(&case.play_id).map(|s| s.evs.iter().any(|e| e.press && is_play_key(e.code) == Some(case.play_id))).unwrap_or(false);
             if self_refused {
                 out.inc("self_play_inside_own_recording");
             }
         }
-        out.tag(format!(
-            "{:?}|{}|{}|{}|len{}|tail{}|{:?}",
-            case.kind,
-            if case.cfg.recorded_delays { "rec" } else { "const" },
-            case.cfg.shapes.iter().copied().collect::<Vec<_>>().join(","),
-            case.notes.join(";"),
-            rec_len.min(30),
-            st.map(|s| s.tail.len()).unwrap_or(0),
-            ended_after.map(|e| e / 16)
-        ));
-        if idx % 1500 < 6 {
+        if let Some(g) = &case.graph {
+            out.inc("graph_cases");
+            if g.clean {
+                out.inc("graph_cases_realised_exactly");
+            }
+            // the graph as realised in the stored recordings (truncation may have removed taps)
+            let edge = |i: usize, j: usize| case.stored.get(&i).map(|s| s.evs.iter().any(|e| e.press && is_play_key(e.code) == Some(j))).unwrap_or(false) && case.stored.contains_key(&j);
+            let n_edges = (0..3).flat_map(|i| (0..3).map(move |j| (i, j))).filter(|(i, j)| edge(*i, *j)).count();
+            out.inc(&format!("graph_realised_edges_{n_edges}"));
+            out.max("graph_macro_instances_in_one_replay", model_fs.total_instances() as u64);
+            out.max("graph_nested_depth", model_fs.max_depth as u64);
+            out.count("graph_nested_instances_counted", (model_fs.total_instances().saturating_sub(1)) as u64);
+            out.count("graph_marker_counts_checked", 3);
+            let mut classes: Vec<Refusal> = model_fs.refusals.iter().map(|(c, _)| *c).collect();
+            classes.sort();
+            classes.dedup();
+            for c in &classes {
+                out.inc(match c {
+                    Refusal::SelfNested => "graph_refused_self_nested",
+                    Refusal::BackToNestedAncestor => "graph_refused_back_to_nested_ancestor",
+                    Refusal::SelfAtTop => "graph_refused_self_at_top",
+                    Refusal::BackToTop => "graph_refused_back_to_top",
+                });
+            }
+            if classes.is_empty() && model_fs.max_depth > 0 {
+                out.inc("graph_acyclic_nested");
+            }
+            let t = g.top;
+            let (a, b_) = ((t + 1) % 3, (t + 2) % 3);
+            if (edge(t, a) && edge(a, b_) && edge(b_, t)) || (edge(t, b_) && edge(b_, a) && edge(a, t)) {
+                out.inc("graph_three_cycle_through_top");
+            }
+            if (edge(t, a) || edge(t, b_)) && edge(a, b_) && edge(b_, a) {
+                out.inc("graph_two_cycle_below_top");
+            }
+            if model_fs.plays_of_nothing > 0 {
+                out.inc("graph_plays_of_unrecorded_macro");
+            }
+            if interrupt.is_some() {
+                out.inc("graph_physical_play_during_replay");
+                if interrupted_running {
+                    out.inc("graph_physical_play_while_replay_running");
+                    if (0..3).any(|i| observed_markers[i] > marker_presses(&model_typed)[i]) {
+                        out.inc("graph_physical_play_nested_into_running_replay");
+                    }
+                }
+            } else if verdict.is_some() {
+                out.inc("graph_replays_equal_to_expansion");
+            }
+            out.tag(format!(
+                "Graph|{}|adj{:?}|top{}|int{}|{}|d{}|n{}",
+                if case.cfg.recorded_delays { "rec" } else { "const" },
+                g.adj,
+                g.top,
+                g.interrupt.map(|(_, z)| z as i32).unwrap_or(-1),
+                classes.iter().map(|c| c.name()).collect::<Vec<_>>().join(","),
+                model_fs.max_depth,
+                model_fs.total_instances()
+            ));
+        }
+        if case.graph.is_none() {
+            out.tag(format!(
+                "{:?}|{}|{}|{}|len{}|tail{}|{:?}",
+                case.kind,
+                if case.cfg.recorded_delays { "rec" } else { "const" },
+                case.cfg.shapes.iter().copied().collect::<Vec<_>>().join(","),
+                case.notes.join(";"),
+                rec_len.min(30),
+                st.map(|s| s.tail.len()).unwrap_or(0),
+                ended_after.map(|e| e / 16)
+            ));
+        }
+        if idx % 1500 < 6 || (case.kind == Kind::Graph && idx % 400 == 7) {
             out.sample = Some(witness(&case, verdict.as_ref(), json!({"replay_ended_after_ticks": ended_after})));
         }
         out
     }
     fn rule(&self) -> String {
-        "case = one configuration (5 typing keys with plain / output-chord / multi / modifier actions on two layers, a layer-while-held key, 3 record keys, 3 play keys, stop and two stop-truncate keys, optionally each control key also outputs a witness key; 1/3 of the cases add tap-hold (3 variants), one-shot and tap-dance keys; both replay-delay behaviours) and one history that records macros and finally plays one: basic (keys held across start and stop, stop by stop key / truncation 1-9 / record key again / another record key), re-record, nested (B plays A, self-play, mutual, twice+self, A re-recorded later), size limit 0-5 exceeded, keys or the layer key physically held while playing, time-sensitive. The replay's OS stream after the play key is compared with a twin run with the identical prefix that types the recorded portion again (harness bookkeeping; nested plays expanded in place, a macro never inside itself; keys still down at stop released at the end and compared as a multiset): time-insensitive configs by order, time-sensitive configs with `recorded` delays by order and kanata-internal millisecond (gaps >= 1 ms in the recorded section), time-sensitive with `constant` only by the invariants. Invariants always: the replay ends within the wait time, nothing is down when it has ended, nothing down after everything is released, the recording has stopped by itself after the limit was exceeded and the replay equals typing the first 2*limit..2*limit+3 events. Non-trivial = a replay that produced output; distinct = (kind, delay behaviour, action shapes, stop modes, recorded length, tail size, replay duration class).".into()
+        "case = one configuration (5 typing keys with plain / output-chord / multi / modifier actions on two layers, a layer-while-held key, 3 record keys, 3 play keys, stop and two stop-truncate keys, optionally each control key also outputs a witness key; 1/3 of the cases add tap-hold (3 variants), one-shot and tap-dance keys; both replay-delay behaviours) and one history that records macros and finally plays one: basic (keys held across start and stop, stop by stop key / truncation 1-9 / record key again / another record key), re-record, nested (B plays A, self-play, mutual, twice+self, A re-recorded later), size limit 0-5 exceeded, keys or the layer key physically held while playing, time-sensitive. The replay's OS stream after the play key is compared with a twin run with the identical prefix that types the recorded portion again (harness bookkeeping; nested plays expanded in place, a macro never inside itself; keys still down at stop released at the end and compared as a multiset): time-insensitive configs by order, time-sensitive configs with `recorded` delays by order and kanata-internal millisecond (gaps >= 1 ms in the recorded section), time-sensitive with `constant` only by the invariants. Invariants always: the replay ends within the wait time, nothing is down when it has ended, nothing down after everything is released, the recording has stopped by itself after the limit was exceeded and the replay equals typing the first 2*limit..2*limit+3 events. Every replay (all families) must end within a bound derived from the recorded lengths only: 6 ticks per event and per macro boundary of the model's expansion + the recorded pauses + 100. Play-graph family (enumerated completely in both tiers: 512 graphs 'recording of macro i contains a tap of play key j' over the 3 macros x 3 top-level plays x {constant, recorded}, realised exactly; plus 2 (quick) / 22 (thorough) seeded variants per graph and top with a macro never recorded, truncating stops, repeated taps and a second play key tapped physically during the judged replay): every recording starts with a tap of the macro's own marker key (f19/f20/f21, produced by nothing else); the number of marker presses in the replay must equal the number of times the macro occurs in the expansion of the play graph without its recursive edges (a play key of a macro that is being replayed - the played one or a nested one - is refused: self edge at the top, self edge in a nested macro, back edge to the top, back edge to a nested ancestor); with a physical play key during the replay: at most the expansion of the judged play plus one expansion of the other macro, termination within the sum of both bounds, nothing left down. Non-trivial = a replay that produced output; distinct = (kind, delay behaviour, action shapes, stop modes, recorded length, tail size, replay duration class), play graphs: (delay, graph, top, physical play, refusal classes, depth, instances).".into()
     }
     fn assumptions(&self) -> Vec<String> {
         vec![
@@ -1141,10 +1575,15 @@ impl Check for C19Check {
             "time-sensitive configurations: exact timing is only judged with `recorded` delays, recorded gaps >= 1 ms, no nested plays, and a full settle before the stop when keys are still held (the moment the left-over releases are sent is not specified); with `constant` delays only the invariants are judged".into(),
             "the exact cut at dynamic-macro-max-presses is implementation-defined: any prefix of 2*limit .. 2*limit+3 events is accepted".into(),
             "no recording is active while the judged play runs; macros with cancel-on-press are not in these configurations".into(),
+            "play graphs: 'a macro never replays itself recursively' is read as: a play key met while that macro is being replayed (as the played macro or nested anywhere on the current chain) replays nothing, and the same macro may be replayed again once its nested replay is over (X containing two taps of play Y replays Y twice); time-insensitive configurations only".into(),
+            "play graphs: where a play key tapped physically during a replay takes effect inside the running replay is not specified, so those cases are judged by upper bounds only (marker counts <= judged expansion + one expansion of the other macro, termination within the sum of both bounds, nothing down afterwards), not by the relational comparison".into(),
+            "the termination bound is an upper bound written from the documentation (constant pacing of a few ms per event, or the recorded pauses), deliberately loose: 6 ticks per replayed event and macro boundary + all recorded pauses + 100".into(),
         ]
     }
     fn floors(&self, ctx: &Ctx) -> Vec<(&'static str, u64)> {
         let s = ctx.tier.sel(1, 15);
+        // play-graph family: 2 exact + 2 disturbed variants per graph and top in quick, 2 + 22 in thorough
+        let g = |q: u64, t: u64| ctx.tier.sel(q, t);
         vec![
             ("replays_equal_in_order", 12_000 * s),
             ("replays_equal_with_timing", 3_000 * s),
@@ -1159,6 +1598,21 @@ impl Check for C19Check {
             ("delay_constant", 6_000 * s),
             ("delay_recorded", 9_000 * s),
             ("late_stop_cases", 150 * s),
+            ("replays_ended_within_bound", ctx.tier.sel(35_000, 620_000)),
+            ("graph_cases", g(6_000, 36_000)),
+            ("graph_cases_realised_exactly", 3_000),
+            ("graph_replays_equal_to_expansion", g(4_000, 17_000)),
+            ("graph_marker_counts_checked", g(18_000, 108_000)),
+            ("graph_nested_instances_counted", g(8_000, 45_000)),
+            ("graph_refused_self_at_top", g(2_000, 13_000)),
+            ("graph_refused_self_nested", g(2_000, 11_000)),
+            ("graph_refused_back_to_top", g(2_000, 11_000)),
+            ("graph_refused_back_to_nested_ancestor", g(600, 3_500)),
+            ("graph_two_cycle_below_top", g(600, 3_500)),
+            ("graph_three_cycle_through_top", g(800, 4_500)),
+            ("graph_acyclic_nested", g(150, 1_200)),
+            ("graph_physical_play_nested_into_running_replay", g(300, 4_000)),
+            ("graph_plays_of_unrecorded_macro", g(250, 3_000)),
         ]
     }
 }
